@@ -23,7 +23,7 @@ MANDATORY = ["sample_before_read:Sampler", "sample_before_read:QuickSampler", "s
              "postselection_mutated_in_place", "param_set_between_reads", "circuit_edited_between_reads",
              "source_mutated_between_reads", "backend_swapped", "input_changed", "analyze_without_expected_after_expected",
              "loss_added_in_place", "circuit_replaced_more_loss", "postselection_rule_on_ruled_mode",
-             "tiny_reconfiguration", "herald_declared_in_place"]
+             "tiny_reconfiguration", "herald_declared_in_place", "truncated_mass_above_numpy_tolerance"]
 DECIDING = ["mon.twin_distribution_reads", "mon.twin_sampling_calls", "mon.analyze_postconditions"]
 BUDGET = {"quick": 30, "thorough": 480}
 ASSUMPTIONS = ["a twin built from the current public settings is the reference; distributions compared to 1e-12, seeded "
@@ -296,6 +296,55 @@ def history(ctx, lw, rng, kind):
     ctx.case((kind, tuple(t[0] for t in trace[1:])), nontrivial, sample={"history": trace})
 
 
+def leaky_unitary(rng, n, j):
+    """A unitary whose column j sends a photon to every other mode with a probability just below the documented 1e-9
+    per-state truncation, so that the *sum* of what the sampler drops exceeds numpy's 1.5e-8 normalisation tolerance
+    (the situation sample_N_inputs' re-normalisation fallback exists for)."""
+    a = np.sqrt(9e-10 * rng.uniform(0.8, 1.0, size=n)) * np.exp(1j * rng.uniform(0, 2 * np.pi, size=n))
+    a[0] = 0
+    a[0] = np.sqrt(1 - np.sum(np.abs(a) ** 2))
+    m = rng.normal(size=(n, n)) + 1j * rng.normal(size=(n, n))
+    m[:, 0] = a
+    q, r = np.linalg.qr(m)
+    q = q * (r[0, 0] / abs(r[0, 0]))        # first column equal to a again
+    perm = list(range(n))
+    perm[0], perm[j] = perm[j], perm[0]
+    return q[perm][:, perm]
+
+
+def truncation_history(ctx, lw, rng):
+    """Observations only, on a sampler whose truncated distribution is visibly not normalised: no observation may change
+    what a later one reports."""
+    emu, State = lw.emulator, lw.State
+    n = int(rng.integers(24, 31))
+    j = int(rng.integers(n))
+    c = lw.Unitary(leaky_unitary(rng, n, j))
+    occ = [0] * n
+    occ[j] = 1
+    trace = [["new", "Sampler", n, occ, "column with 1e-9-sized leaks"]]
+    obj = emu.Sampler(c, State(occ), backend=str(rng.choice(["permanent", "slos"])))
+    ctx.bucket("truncated_mass_above_numpy_tolerance")
+    for _ in range(int(rng.integers(3, 9))):
+        step = str(rng.choice(["read", "n_inputs", "n_outputs", "sample", "n_inputs"]))
+        trace.append([step])
+        try:
+            if step == "read":
+                d = obj.probability_distribution
+                if abs(sum(d.values()) - 1) < 1.5e-8:
+                    ctx.count("truncation_history_total_within_numpy_tolerance")
+            elif step == "sample":
+                obj.sample()
+            elif step == "n_inputs":
+                obj.sample_N_inputs(int(rng.integers(1, 50)), seed=pick_seed(rng))
+            else:
+                obj.sample_N_outputs(int(rng.integers(1, 50)), seed=pick_seed(rng))
+        except Exception as e:  # noqa: BLE001
+            trace[-1].append("raised " + type(e).__name__)
+            ctx.count("step_raised:" + type(e).__name__)
+        drain_into(ctx, {"history": trace})
+    ctx.case(("Sampler-truncation", tuple(t[0] for t in trace[1:])), True, sample={"history": trace})
+
+
 def analyzer_history(ctx, lw, rng):
     emu, State = lw.emulator, lw.State
     n = int(rng.integers(2, 5))
@@ -330,7 +379,9 @@ def run(ctx):
     rng = ctx.rng
     while not ctx.out_of_time():
         r = rng.random()
-        if r < 0.45:
+        if r < 0.04:
+            truncation_history(ctx, lw, rng)
+        elif r < 0.45:
             history(ctx, lw, rng, "Sampler")
         elif r < 0.85:
             history(ctx, lw, rng, "QuickSampler")
